@@ -23,6 +23,14 @@ abbrev Name := String
 inductive Ref where
   | read (n : Name)   -- the value of global `n`
   | call (n : Name)   -- `(n)`
+  | const (k : Int)   -- a literal; never written by hand: `propagate` (the unit-local constant propagation of the
+                      -- compiler) puts it in place of `read x` when the same unit holds `(define x k)`
+deriving DecidableEq, Repr, Inhabited
+
+/-- What the body of a compiled function mentions: a global (by slot in M, by cell in S), or a literal. -/
+inductive FRef where
+  | g (isCall : Bool) (i : Nat)   -- CALLGLOBAL* / PUSH payload
+  | k (n : Int)                   -- PUSHCONST
 deriving DecidableEq, Repr, Inhabited
 
 inductive Form where
@@ -52,10 +60,38 @@ def Form.defines : Form → Option Name
   | _ => none
 
 def Form.uses : Form → List Name
-  | .deff _ refs => refs.map (fun | .read n => n | .call n => n)
+  | .deff _ refs => refs.filterMap (fun | .read n => some n | .call n => some n | .const _ => none)
   | .defs _ x | .set x _ | .setn x _ | .read x => [x]
   | .call f | .calls f _ => [f]
   | _ => []
+
+/-- The name a form assigns with `set!` (directly, or in the body of the procedure it defines). -/
+def Form.assigns : Form → Option Name
+  | .set x _ | .setn x _ | .defs _ x => some x
+  | _ => none
+
+/-! ## The unit-local constant propagation of the compiler
+
+`compiler.rs` runs `inline_function_calls(None, …)` and constant evaluation on every compilation unit, guarded
+only by the `set!`s of *that unit*: when a unit holds `(define x k)` for a literal `k`, defines `x` once and
+assigns it nowhere, every `x` in a function body of the unit is replaced by `k`.  (The same pass inlines small
+procedures of the unit into their callers; that part is not modelled — it is inside the same finding class.) -/
+
+def constOf (forms : List Form) (x : Name) : Option Int :=
+  match forms.filter (fun f => f.defines == some x) with
+  | [.defc _ k] => if forms.any (fun f => f.assigns == some x) then none else some k
+  | _ => none
+
+def propagateRef (forms : List Form) : Ref → Ref
+  | .read x => match constOf forms x with
+    | some k => .const k
+    | none => .read x
+  | r => r
+
+def propagate (forms : List Form) : List Form :=
+  forms.map fun
+    | .deff f refs => .deff f (refs.map (propagateRef forms))
+    | f => f
 
 /-! ## S: binding cells -/
 namespace Spec
@@ -63,7 +99,7 @@ namespace Spec
 inductive Val where
   | void
   | int (n : Int)
-  | fn (refs : List (Bool × Nat))   -- (isCall, cell)
+  | fn (refs : List FRef)           -- mentions of cells / literals
   | setter (cell : Nat)
   | nat (k : Int)                   -- a built-in procedure; `(k)` with no operands returns k
 deriving DecidableEq, Repr, Inhabited
@@ -71,7 +107,7 @@ deriving DecidableEq, Repr, Inhabited
 structure State where
   env : List (Name × Nat) := []    -- newest first
   cells : List Val := []
-deriving Repr, Inhabited
+deriving DecidableEq, Repr, Inhabited
 
 def lookup (env : List (Name × Nat)) (n : Name) : Option Nat := (env.find? (·.1 == n)).map (·.2)
 
@@ -88,9 +124,11 @@ def callFn (cells : List Val) : Nat → Nat → Option String
   | fuel + 1, c =>
     match cells[c]? with
     | some (.fn refs) =>
-        let parts := refs.map fun (isCall, cell) =>
-          if isCall then callFn cells fuel cell
-          else (cells[cell]?).bind (valStr cells fuel)
+        let parts := refs.map fun
+          | .g isCall cell =>
+            if isCall then callFn cells fuel cell
+            else (cells[cell]?).bind (valStr cells fuel)
+          | .k n => some (toString n)
         if parts.all Option.isSome then some (showInts (parts.filterMap id)) else none
     | some (.nat k) => some (toString k)
     | _ => none
@@ -106,8 +144,9 @@ def runForm (env : List (Name × Nat)) (cells : List Val) : Form → Option (Lis
   | .defc x n => (lookup env x).map fun c => (cells.set c (.int n), none)
   | .deff f refs =>
       let rs := refs.map fun
-        | .read n => (lookup env n).map (fun c => (false, c))
-        | .call n => (lookup env n).map (fun c => (true, c))
+        | .read n => (lookup env n).map (fun c => FRef.g false c)
+        | .call n => (lookup env n).map (fun c => FRef.g true c)
+        | .const k => some (FRef.k k)
       if rs.all Option.isSome then
         (lookup env f).map fun c => (cells.set c (.fn (rs.filterMap id)), none)
       else none
@@ -168,7 +207,7 @@ structure SymMap where
   values : List Name := []              -- slot ↦ name
   map : List (Name × Nat) := []         -- name ↦ slot (association list, newest first)
   fl : FreeList := {}
-deriving Repr, Inhabited
+deriving DecidableEq, Repr, Inhabited
 
 def SymMap.get (m : SymMap) (n : Name) : Option Nat := (m.map.find? (·.1 == n)).map (·.2)
 
@@ -229,20 +268,20 @@ def SymMap.rollBack (m : SymMap) (index : Nat) : SymMap :=
 inductive Val where
   | void
   | int (n : Int)
-  | fn (refs : List (Bool × Nat))   -- (isCall, slot): CALLGLOBAL* / PUSH payloads
+  | fn (refs : List FRef)           -- CALLGLOBAL* / PUSH payloads (slots), PUSHCONST literals
   | setter (slot : Nat)             -- SET payload
   | nat (k : Int)                   -- a built-in procedure; `(k)` with no operands returns k
 deriving DecidableEq, Repr, Inhabited
 
 def Val.slots : Val → List Nat
-  | .fn refs => refs.map (·.2)
+  | .fn refs => refs.filterMap (fun | .g _ i => some i | .k _ => none)
   | .setter s => [s]
   | _ => []
 
 structure State where
   sym : SymMap := {}
   globals : List Val := []
-deriving Repr, Inhabited
+deriving DecidableEq, Repr, Inhabited
 
 def FreeList.incrementGeneration (f : FreeList) : FreeList :=
   if f.epoch = 4 then { f with threshold := 100, epoch := 1 }
@@ -304,9 +343,11 @@ def callFn (g : List Val) : Nat → Nat → Option String
   | fuel + 1, c =>
     match g[c]? with
     | some (.fn refs) =>
-        let parts := refs.map fun (isCall, slot) =>
-          if isCall then callFn g fuel slot
-          else (g[slot]?).map valStr
+        let parts := refs.map fun
+          | .g isCall slot =>
+            if isCall then callFn g fuel slot
+            else (g[slot]?).map valStr
+          | .k n => some (toString n)
         if parts.all Option.isSome then some (showInts (parts.filterMap id)) else none
     | some (.nat k) => some (toString k)
     | _ => none
@@ -315,8 +356,9 @@ def runForm (m : SymMap) (g : List Val) : Form → Option (List Val × Option St
   | .defc x n => (m.get x).map fun c => (gset g c (.int n), none)
   | .deff f refs =>
       let rs := refs.map fun
-        | .read n => (m.get n).map (fun c => (false, c))
-        | .call n => (m.get n).map (fun c => (true, c))
+        | .read n => (m.get n).map (fun c => FRef.g false c)
+        | .call n => (m.get n).map (fun c => FRef.g true c)
+        | .const k => some (FRef.k k)
       if rs.all Option.isSome then (m.get f).map fun c => (gset g c (.fn (rs.filterMap id)), none) else none
   | .defs f x =>
       match m.get f, m.get x with
@@ -353,5 +395,8 @@ def evalPiece (s : State) (forms : List Form) : State × Res :=
         | some (g', o) => go rest g' (match o with | some v => out ++ [v] | none => out)
     let (g, out, okAll) := go forms s2.globals []
     ({ s2 with globals := g }, if okAll then .ok out else .err)
+
+/-- The pipeline that exists: constant propagation inside the unit, then `evalPiece`. -/
+def evalPieceR (s : State) (forms : List Form) : State × Res := evalPiece s (propagate forms)
 
 end SteelVerif.C06
